@@ -21,9 +21,15 @@ Process-wide state and per-page interpreter state (Model/ProcGlobals.lean):
 GPAGE    := ncs (key kind arg)* nops (code a b)*     kind 0 named(arg) 1 [/ICCBased N=arg] 2 [/DeviceN arg names]
              code 0 Tc 1 Tw 2 Tz 3 TL 4 Ts 5 Tr (b-1000 = value) 6 Tf(a = name, b-1000 = size) 7 q 8 Q 9 cs(a) 10 CS(a)
                   11 stray name(a) 12 unknown operator(a)
+
+Object cache with mutable containers (Model/ProcObjCache.lean); a fresh parse of object n gives [n]:
+  oworld caching nids id*                     which objects exist; state := init
+  oget n | omut n v | ocpmut n v              reply: val <contents|none> fresh=<0|1> same=<0|1>
+                                              (same: the reference returned is the one returned last time for n)
 -/
 import PdfVerif.Model.ProcessEnc
 import PdfVerif.Model.ProcGlobals
+import PdfVerif.Model.ProcObjCache
 
 open PdfVerif PdfVerif.Process
 
@@ -134,6 +140,10 @@ structure DState where
   docs : List (Nat × DocSpec)
   st : State
   g : ProcGlobals.Globals := ProcGlobals.G0 [] []
+  ocaching : Bool := true
+  oids : List Nat := []
+  ost : ObjCache.St := ObjCache.St.init
+  olast : List (Nat × Nat) := []
 
 namespace G
 open PdfVerif.ProcGlobals
@@ -215,6 +225,21 @@ def showPage (d : DocSpec) (k : Option Nat) (p : PageOut) : String :=
   let flat := parts.flatten
   let sh := if p.shapes.isEmpty then "-" else ",".intercalate (p.shapes.map (fun s => toString s.1 ++ ":" ++ toString s.2))
   (if flat.isEmpty then "-" else ",".intercalate flat) ++ " " ++ sh
+
+def oStep (ds : DState) (n : Nat) (op : ObjCache.Op) : DState × String :=
+  let parse : Nat → Option (List Nat) := fun k => if ds.oids.contains k then some [k] else none
+  let addr := (ObjCache.getobj parse ds.ocaching ds.ost n).1
+  let r := ObjCache.step parse ds.ocaching ds.ost op
+  let same := match addr, alookup n ds.olast with
+    | some a, some b => a == b
+    | _, _ => false
+  let olast := match addr with
+    | some a => aset n a ds.olast
+    | none => ds.olast
+  ({ ds with ost := r.1, olast := olast },
+   "val " ++ (match r.2 with | some c => csv c | none => "none") ++
+   " fresh=" ++ (if r.2 == parse n then "1" else "0") ++ " same=" ++ (if same then "1" else "0") ++
+   " cached=" ++ csv (sortNat (r.1.cache.map (·.1))))
 
 def stepLine (ds : DState) (line : String) : DState × String :=
   match words line with
@@ -311,6 +336,13 @@ def stepLine (ds : DState) (line : String) : DState × String :=
             " newlits=" ++ csv (r.2.lits.drop ds.g.lits.length) ++ " newkw=" ++ csv (r.2.kwds.drop ds.g.kwds.length) ++
             " " ++ G.showStatic r.2)
         | _ => (ds, "bad-op")
+      | "oworld", caching :: rest =>
+        match pList pNat rest with
+        | some (ids, []) => ({ ds with ocaching := caching != 0, oids := ids, ost := ObjCache.St.init, olast := [] }, "ok")
+        | _ => (ds, "bad-op")
+      | "oget", [n] => oStep ds n (.get n)
+      | "omut", [n, v] => oStep ds n (.mutInPlace n v)
+      | "ocpmut", [n, v] => oStep ds n (.copyMut n v)
       | "gmetrics", [k] =>
         (ds, match ProcGlobals.metricsOf ds.g k with
           | some d => "metrics " ++ toString d.1 ++ "," ++ toString d.2
